@@ -955,8 +955,8 @@ impl<'a, T: 'a + IO> Interpreter<'a, T> {
                 return Err(RuntimeError(line, file_name, err_m));
             },
             "_স্ট্রিং-স্প্লিট" => {
-                match BuiltInFunctionList::_string_split(evaluated_arguments, &mut self.lists) {
-                    Ok(result_data) => Ok(result_data),
+                match BuiltInFunctionList::_string_split(evaluated_arguments) {
+                    Ok(splitted_strings) => Ok(self.create_new_list_datatype(splitted_strings)),
                     Err(err) => {
                         let (line, file_name) = self.extract_err_meta_stmt(self.current)?;
                         return Err(RuntimeError(line, file_name, err));
@@ -1409,7 +1409,7 @@ impl<'a, T: 'a + IO> Interpreter<'a, T> {
     fn create_new_list_datatype(&mut self, new_list: Vec<DataType>) -> DataType {
         // self.total_allocated_object_count is used as a parameter in gc to determine
         // if its time collect garbage
-        self.total_allocated_object_count += new_list.len();
+        self.total_allocated_object_count += new_list.len() + 1;
 
         if self.free_lists.len() > 0 {
             let free_index = self.free_lists.pop().unwrap();
@@ -1424,7 +1424,7 @@ impl<'a, T: 'a + IO> Interpreter<'a, T> {
     fn create_new_nameless_record_datatype(&mut self, new_record: HashMap<String, DataType>) -> DataType {
         // self.total_allocated_object_count is used as a parameter in gc to determine
         // if its time collect garbage
-        self.total_allocated_object_count += new_record.len();
+        self.total_allocated_object_count += new_record.len() + 1;
 
         if self.free_nameless_records.len() > 0 {
             let free_index = self.free_nameless_records.pop().unwrap();
